@@ -65,3 +65,56 @@
         for f in failures.iter().take(5) { println!("FAILING INPUT: {}", f); }
         assert!(failures.is_empty());
     }
+
+    /// two successive batches on real strings: the composed map must send character boundaries of the final text to
+    /// character boundaries of the ORIGINAL text, be monotone, and be anchored at both ends (C08, composition clause)
+    fn check2(orig: &str, e1: (usize, usize, &str), e2pick: usize, w2: &str) -> Result<(), String> {
+        let id: Vec<usize> = (0..=orig.len()).collect();
+        let mut ops = vec![ReplaceOp { what: e1.0..e1.1, with: ReplaceTgt::Ref(e1.2) }];
+        let mut t1 = String::new();
+        let mut m1: Vec<usize> = Vec::new();
+        let r1 = resolve_edits(orig, &id, &mut t1, &mut m1, &mut ops);
+        if r1 != t1.len() || t1.is_empty() { return Ok(()); }
+        let bs = boundaries(&t1);
+        // pick the e2pick-th (start,end) pair of boundaries of the intermediate text
+        let mut pairs = Vec::new();
+        for (i, &a) in bs.iter().enumerate() { for &b in &bs[i..] { pairs.push((a, b)); } }
+        let (a2, b2) = pairs[e2pick % pairs.len()];
+        let mut ops2 = vec![ReplaceOp { what: a2..b2, with: ReplaceTgt::Ref(w2) }];
+        let mut t2 = String::new();
+        let mut m2: Vec<usize> = Vec::new();
+        let r2 = resolve_edits(&t1, &m1, &mut t2, &mut m2, &mut ops2);
+        if t2.is_empty() { return Ok(()); }
+        let ctx = format!("original={:?} batch1={:?} -> {:?} (map {:?}); batch2=({},{},{:?}) -> {:?} map {:?}", orig, e1, t1, m1, a2, b2, w2, t2, m2);
+        if r2 != t2.len() || m2.len() != t2.len() + 1 { return Err(format!("length: {}", ctx)); }
+        if m2[0] != 0 || m2[t2.len()] != orig.len() { return Err(format!("not anchored: {}", ctx)); }
+        if m2.windows(2).any(|w| w[0] > w[1]) { return Err(format!("not monotone: {}", ctx)); }
+        for (j, &o) in m2.iter().enumerate() {
+            if o > orig.len() { return Err(format!("out of range at {}: {}", j, ctx)); }
+            if t2.is_char_boundary(j) && !orig.is_char_boundary(o) { return Err(format!("boundary {} maps to non-boundary {}: {}", j, o, ctx)); }
+        }
+        Ok(())
+    }
+
+    #[test]
+    fn verif_oracle_two_batches() {
+        let alphabet = ["a", "é", "漢"];
+        let repl = ["", "x", "yz", "漢字", "(株)"];
+        let mut texts: Vec<String> = Vec::new();
+        for a in alphabet.iter() { texts.push(a.to_string()); for b in alphabet.iter() { texts.push(format!("{}{}", a, b)); for c in alphabet.iter() { texts.push(format!("{}{}{}", a, b, c)); } } }
+        let mut failures = Vec::new();
+        let mut cases = 0usize;
+        for t in &texts {
+            let bs = boundaries(t);
+            for (i, &a) in bs.iter().enumerate() { for &b in &bs[i..] { for w in repl.iter() {
+                for pick in 0..15usize { for w2 in repl.iter() {
+                    cases += 1;
+                    if let Err(e) = check2(t, (a, b, w), pick, w2) { failures.push(e); }
+                }}
+            }}}
+        }
+        println!("verif_oracle_two_batches: {} cases, {} failures", cases, failures.len());
+        for f in failures.iter().take(5) { println!("FAILING INPUT: {}", f); }
+        assert!(failures.is_empty());
+    }
+
